@@ -1,6 +1,6 @@
 """C14 - the Item API (secsgem.secs.items) agrees with SEMI E5 and with the variables API on every value.
 
-Three case kinds (all plain JSON data, see `replay`):
+Case kinds (all plain JSON data, see `replay`):
 
   build   {"kind":"build","node":NODE}
           NODE is a typed node  {"f":fmt,"v":[...]|"pat":[...],"n":N,"form":FORM}  -> ItemX(<python value in FORM>)
@@ -15,7 +15,7 @@ Three case kinds (all plain JSON data, see `replay`):
   header  {"kind":"header","f":fmt,"length":n}      Item.encode_item_header / header decoder for one length
 
 Buckets are root-cause keys: a failing list is re-checked member by member and the smallest failing member is
-reported; a wrong first bytes of an encoding is `item-header`; a decode that only fails with extra length bytes is
+reported; wrong leading header bytes of an encoding are `item-header`; a decode that only fails with extra length bytes is
 `decode-nonminimal-length-bytes:<n>`; an ItemL that only fails in dict form is `itemL-dict-form`.
 Two buckets describe defects present in the unchanged tree (see the Deliverables / known_findings.json):
   itemb-list-int-zero-fill   ItemB([1,2,3]) stores bytes(1)+bytes(2)+bytes(3) = six zero bytes
@@ -71,8 +71,9 @@ RULE = (
     "(b) decode - reference encodings of generated trees with minimal and non-minimal length bytes, raw "
     "boolean bytes, through Item.decode / ItemX.decode / PacketData; (c) boundary payload lengths 255/256/"
     "65535/65536 (+-1 element) for every type and for list element counts, thorough also 16777215-byte A and B "
-    "items; (d) encode_item_header / header decode over sampled (quick) or all 2^24 (thorough) lengths. Oracle: bytes == ref.e5 canonical encoding, "
-    "ref.e5 decodes them to the model, .value equals the input (floats by bit pattern), decode(re-encode) "
+    "items; (d) encode_item_header / header decode over sampled (quick) or all 2^24 (thorough) lengths. Trees nest "
+    "up to 3 levels wide and up to 10 (quick) / 20 (thorough) levels as chains. Oracle: bytes == ref.e5 canonical "
+    "encoding, ref.e5 decodes them to the model, .value equals the input (floats by bit pattern), decode(re-encode) "
     "canonical, same bytes as the secsgem.secs.variables object of the same typed tree, from_value type = "
     "narrowest U/I width computed from the ranges. Non-trivial = list-form constructor input, or an integer at a "
     "width boundary, or a payload at a length-byte boundary / non-minimal length bytes, or nesting >= 2; "
@@ -879,6 +880,43 @@ def node(depth, width=4):
     return _STRATS[key]
 
 
+def node_chain(max_depth):
+    """A chain of nested lists (typed list / dict / plain python list) with a few members along the way."""
+    key = ("nchain", max_depth)
+    if key not in _STRATS:
+        leaf = node(0)
+        sibs = st.lists(leaf, max_size=1)
+
+        @st.composite
+        def _c(draw):
+            nd = draw(leaf)
+            for _ in range(draw(st.integers(4, max_depth))):
+                kids = draw(sibs) + [nd] + draw(sibs)
+                kind = draw(st.sampled_from(["list", "list", "dict", "plain"]))
+                nd = {"p": "list", "x": kids} if kind == "plain" else {"f": "L", "v": kids, "form": kind}
+            return nd
+
+        _STRATS[key] = _c()
+    return _STRATS[key]
+
+
+def raw_chain(max_depth):
+    key = ("rchain", max_depth)
+    if key not in _STRATS:
+        leaf = raw_tree(0)
+        sibs = st.lists(leaf, max_size=1)
+
+        @st.composite
+        def _c(draw):
+            nd = draw(leaf)
+            for _ in range(draw(st.integers(4, max_depth))):
+                nd = _with_lb(draw(sibs) + [nd] + draw(sibs), draw(st.sampled_from([0, 0, 0, 1, 2])))
+            return nd
+
+        _STRATS[key] = _c()
+    return _STRATS[key]
+
+
 def _raw_leaf():
     leaves = _leaf_any(8)
 
@@ -1021,8 +1059,8 @@ def plan(tier, seed):
     tasks.append(("biglist", {"ns": [0, 1, 254, 255, 256, 257], "modes": ["plain", "items", "decode"], "lbs": [0, 1, 2]}))
     if quick:
         tasks.append(("header", {"mode": "sampled", "n": 60000}))
-    per_b = 700 if quick else 30000
-    per_d = 450 if quick else 20000
+    per_b = 700 if quick else 16000
+    per_d = 450 if quick else 16000
     for i in range(16):
         tasks.append(("build", {"shard": i, "n": per_b}))
         tasks.append(("decode", {"shard": i, "n": per_d}))
@@ -1047,9 +1085,11 @@ def _pattern(f, rnd):
 
 def run_task(name, kw, ctx):
     if name == "build":
-        deep = 3 if ctx.tier == "quick" else 4
+        max_chain = 10 if ctx.tier == "quick" else 20
         out_of_range = st.one_of(st.sampled_from(INT_OUT), st.integers(1 << 64, 1 << 80), st.integers(-(1 << 80), -(1 << 63) - 1)).map(lambda n: {"p": "int", "x": n})
-        strat = _weighted((8, node(0)), (4, node(1)), (4, node(2)), (4, node(deep)), (1, out_of_range)).map(lambda n: {"kind": "build", "node": n})
+        strat = _weighted((8, node(0)), (4, node(1)), (4, node(2)), (4, node(3)), (1, node_chain(max_chain)), (1, out_of_range)).map(
+            lambda n: {"kind": "build", "node": n}
+        )
 
         ctx.note("+-inf is never generated (both APIs reject it alike); NaN is generated in about 1 float leaf of 8")
         ctx.note("Item.from_value(float): type not pinned by the statement; F4 or F8 accepted, lossy F4 picks counted in class from_value-float-lossy")
@@ -1064,10 +1104,10 @@ def run_task(name, kw, ctx):
 
         ctx.hyp(strat, body, kw["n"], seed_offset=kw["shard"], max_buckets=2)
     elif name == "decode":
-        deep = 3 if ctx.tier == "quick" else 5
+        max_chain = 10 if ctx.tier == "quick" else 20
         strat = st.builds(
             lambda t, via: {"kind": "decode", "item": t, "via": via},
-            _weighted((2, raw_tree(0)), (1, raw_tree(1)), (1, raw_tree(2)), (1, raw_tree(deep))),
+            _weighted((4, raw_tree(0)), (2, raw_tree(1)), (2, raw_tree(2)), (2, raw_tree(3)), (1, raw_chain(max_chain))),
             st.sampled_from(["Item", "Item", "class", "packet"]),
         )
 
